@@ -5,7 +5,7 @@ from ..leandrv import Driver
 from .C05 import norm
 
 MODULE = 'Bluebell.Props.C06'
-THEOREMS = ['Bluebell.C06_escape_list_covers_keywords', 'Bluebell.C06_item_escaped', 'Bluebell.C06_num_escape_round_trip', 'Bluebell.C06_unparse_leaves_input', 'Bluebell.C06_unparse_total', 'Bluebell.C06_examples']
+THEOREMS = ['Bluebell.C06_escape_list_covers_keywords', 'Bluebell.C06_item_escaped', 'Bluebell.C06_num_escape_round_trip', 'Bluebell.C06_unparse_leaves_input', 'Bluebell.C06_unparse_total', 'Bluebell.C06_examples', 'Bluebell.C06_safe_text_verbatim', 'Bluebell.escapeInlines_safe']
 HIER = set(treegen.HIER)
 
 
